@@ -42,7 +42,7 @@ def required_cells(tier):
             ['style:google', 'style:freeform', 'open:same-line', 'open:own-line', 'where:func', 'where:method',
              'where:class', 'where:module', 'where:deco', 'start-line-checks', 'part-offset-checks',
              'blank-lines-before-first-block', 'ignored-block-before-doctest',
-             'opening-line-differs-from-evaluated-text'])
+             'opening-line-differs-from-evaluated-text', 'open:on-the-def-line'])
 
 
 def gen_doctest(rng, uid, fail_kind):
@@ -230,9 +230,15 @@ def gen_module(rng, seed):
             if kind == 'deco2':
                 out += ['@_d', '@_d2(', '    1,', ')']
                 feats.add('where:deco')
-            out.append(rng.choice(['def fn%d(a=1):', 'def fn%d(a=1,\n        b=2):', 'async def fn%d(a=1):']) % k)
+            defline = rng.choice(['def fn%d(a=1):', 'def fn%d(a=1,\n        b=2):', 'async def fn%d(a=1):']) % k
             dl, infos = docstring(4, style)
-            out += dl + ['    return a']
+            if rng.random() < 0.12:
+                # the docstring is opened on the line of its def and is the whole body (finding F28)
+                out += [defline + ' ' + dl[0].lstrip()] + dl[1:]
+                feats.add('open:on-the-def-line')
+            else:
+                out.append(defline)
+                out += dl + ['    return a']
             name = 'fn%d' % k
             feats.add('where:func')
         elif kind == 'class':
